@@ -27,18 +27,23 @@ Fixpoint dict_set {V} (key : V -> nat) (d : list V) (v : V) : list V :=
   | x :: r => if Nat.eqb (key x) (key v) then v :: r else x :: dict_set key r v
   end.
 
+(* build all objects, inserting each under its name (Python dict) *)
+Definition dict_fold {D V} (key : V -> nat) (f : D -> res V) (defs : list D) : res (list V) :=
+  fold_left (fun acc d => l <- acc ;; v <- f d ;; Ok (dict_set key l v)) defs (Ok []).
+
+Definition flow_of (procs : list (nat * nat)) (dims : dimset) (naming : nat -> nat -> nat) (fd : flowdef) : res flowobj :=
+  match assoc (fd_from fd) procs, assoc (fd_to fd) procs with
+  | Some _, Some _ =>
+      ds <- get_subset dims (map KLetter (fd_dims fd)) ;;
+      ds' <- mk_dimset ds ;;
+      let nm := match fd_override fd with Some n => n | None => naming (fd_from fd) (fd_to fd) end in
+      Ok (mk_flowobj nm (fd_from fd) (fd_to fd) ds')
+  | _, _ => Err
+  end.
+
 Definition make_empty_flows (procs : list (nat * nat)) (dims : dimset)
            (naming : nat -> nat -> nat) (defs : list flowdef) : res (list flowobj) :=
-  fold_left (fun acc fd =>
-    fl <- acc ;;
-    match assoc (fd_from fd) procs, assoc (fd_to fd) procs with
-    | Some _, Some _ =>
-        ds <- get_subset dims (map KLetter (fd_dims fd)) ;;
-        ds' <- mk_dimset ds ;;
-        let nm := match fd_override fd with Some n => n | None => naming (fd_from fd) (fd_to fd) end in
-        Ok (dict_set fo_name fl (mk_flowobj nm (fd_from fd) (fd_to fd) ds'))
-    | _, _ => Err
-    end) defs (Ok []).
+  dict_fold fo_name (flow_of procs dims naming) defs.
 
 (* ---- stocks ---- *)
 Record stockdef := mk_stockdef {
@@ -59,26 +64,26 @@ Definition stockdef_ok (sd : stockdef) : bool :=
   && (match sd_lifetime sd with Some _ => needs_lifetime (sd_class sd) | None => negb (needs_lifetime (sd_class sd)) end).
 
 (* [forwards_solver = false] is the code before the repair: the definition's solver was dropped *)
+Definition stock_of (forwards_solver : bool) (procs : list (nat * nat)) (dims : dimset) (sd : stockdef) : res stockobj :=
+  ds <- get_subset dims (map KLetter (sd_dims sd)) ;;
+  ds' <- mk_dimset ds ;;
+  _u <- (match sd_process sd with
+         | None => Ok tt
+         | Some p => match assoc p procs with Some _ => Ok tt | None => Err end
+         end) ;;
+  (* Stock validators: time must be the first dimension *)
+  match letters ds' with
+  | l0 :: _ =>
+      if Nat.eqb l0 (sd_time sd)
+      then Ok (mk_stockobj (sd_name sd) (sd_process sd) ds' (sd_time sd) (sd_class sd) (sd_lifetime sd)
+                 (if Nat.eqb (sd_class sd) 2 then Some (if forwards_solver then sd_solver sd else 0) else None))
+      else Err
+  | [] => Err
+  end.
+
 Definition make_empty_stocks (forwards_solver : bool) (procs : list (nat * nat)) (dims : dimset)
            (defs : list stockdef) : res (list stockobj) :=
-  fold_left (fun acc sd =>
-    sl <- acc ;;
-    ds <- get_subset dims (map KLetter (sd_dims sd)) ;;
-    ds' <- mk_dimset ds ;;
-    _u <- (match sd_process sd with
-           | None => Ok tt
-           | Some p => match assoc p procs with Some _ => Ok tt | None => Err end
-           end) ;;
-    (* Stock validators: time must be the first dimension *)
-    match letters ds' with
-    | l0 :: _ =>
-        if Nat.eqb l0 (sd_time sd)
-        then Ok (dict_set so_name sl
-                   (mk_stockobj (sd_name sd) (sd_process sd) ds' (sd_time sd) (sd_class sd) (sd_lifetime sd)
-                      (if Nat.eqb (sd_class sd) 2 then Some (if forwards_solver then sd_solver sd else 0) else None)))
-        else Err
-    | [] => Err
-    end) defs (Ok []).
+  dict_fold so_name (stock_of forwards_solver procs dims) defs.
 
 (* ---- MFADefinition.check_dimension_letters ---- *)
 Definition definition_ok (defined : list letter) (flows : list flowdef) (stocks : list stockdef)
